@@ -1311,6 +1311,10 @@ pub fn check_consumer(c: &ConsumerCase, l: &mut Local) -> Result<(), Fail> {
                 match catch(|| classgroup::classgroup(&d, &prefs, None)) {
                     Ok(_) => l.label("consumer:clsgrp:complete-run"),
                     Err(p) if allowed_cls_panic(&p.msg) => l.label("consumer:clsgrp:no-result"),
+                    // the consistency assertions of the linear-algebra stage (matrix/intdense.rs: det == h, float
+                    // self-checks) are give-ups of the class-group computation (DESIGN 7.2, C18), not a matter of
+                    // the parameter tables
+                    Err(p) if p.short_loc().starts_with("src/matrix/") => l.label("consumer:clsgrp:no-result(linear-algebra-assertion)"),
                     Err(p) => {
                         let mut f = panic_fail(&format!("classgroup|{}", tag), &p);
                         f.what = format!("{} D={}: {}", entry, d, f.what);
